@@ -18,6 +18,19 @@ def gen_ckk():
     i2 = body.find("a_plus_b")
     if not (0 <= i1 < i2):
         raise Fail("difference branch is expected before the sum branch")
+    # the acceptance test is done in the weight type T (not in f64): the model's `w <=? tol` on Z
+    nows = re.sub(r"\s+", "", body)
+    sig = re.sub(r"\s+", "", src[src.find("fn ckk_bipart_rec"):src.find("fn ckk_bipart_rec") + 400])
+    if "tolerance:T," not in sig:
+        raise Fail("ckk_bipart_rec: `tolerance: T` parameter not found (the bound must be held in the weight type)")
+    if "iflast_weight<=tolerance{" not in nows:
+        raise Fail("ckk_bipart_rec: base case `if last_weight <= tolerance {` not found")
+    top = fn_body(src, "ckk_bipart")
+    if top is None:
+        raise Fail("fn ckk_bipart not found")
+    if "lettolerance=T::from_f64(sum.to_f64().unwrap()*tolerance).unwrap();" not in re.sub(r"\s+", "", top):
+        raise Fail("ckk_bipart: `let tolerance = T::from_f64(sum.to_f64().unwrap() * tolerance).unwrap();` not found "
+                   "(the model's tol_int mirrors exactly this conversion)")
     out = HEADER.format(src=rel)
     out += "Definition ckk_diff_branch_separate : bool := %s.\n" % lits[0]
     out += "Definition ckk_sum_branch_separate : bool := %s.\n" % lits[1]
@@ -34,7 +47,7 @@ PROP = dict(
     prop_targets=["Properties/C13.vo"],
     cases=dict(quick=6000, thorough=40000),
     level="proof",
-    rule="cases drawn from 12 families (weights with a total near 0.75*i64::MAX, random element of the exhaustive space of vectors over {0..4} up to length 6, "
+    rule="cases drawn from 13 families (two or more weights whose only achievable difference is 2^k+e, k in 53..60, against a bound of 2^k: the binary64 boundary of the tolerance conversion; weights with a total near 0.75*i64::MAX, random element of the exhaustive space of vectors over {0..4} up to length 6, "
          "two-largest-balance-the-rest, random, ties, one dominant, perfect partition exists, zeros, long+loose tolerance, tiny, "
          "large values) x 10 tolerance choices (0, exact d/total, fixed, random), plus a malformed stream (partition length "
          "shorter/longer/empty); thorough tier: the first 19530 cases enumerate EVERY vector over {0..4} of length 1..6 at "
